@@ -220,6 +220,28 @@ impl Node {
     }
   }
 
+  /// the same node, its MessageReceiver carrying security plugins (C17)
+  #[cfg(feature = "security")]
+  pub fn new_with_plugins(index: u8, plugins: Option<crate::security::security_plugins::SecurityPluginsHandle>) -> Node {
+    let prefix = node_prefix(index);
+    let (acknack_tx, acknack_rx) = mio_channel::sync_channel(1024);
+    let (spdp_tx, spdp_rx) = mio_channel::sync_channel(1024);
+    let (ptx, prx) = sync_status_channel(4096).expect("rig: status channel");
+    Node {
+      index,
+      prefix,
+      locator: node_locator(index),
+      mr: MessageReceiver::new(prefix, acknack_tx, spdp_tx, plugins),
+      acknack_rx,
+      spdp_rx,
+      readers: Vec::new(),
+      writers: Vec::new(),
+      participant_status_tx: ptx,
+      participant_status_rx: prx,
+      acks_forwarded: 0,
+    }
+  }
+
   pub fn add_reader(&mut self, eid: EntityId, topic: &str, qos: &QosPolicies) -> usize {
     self.add_reader_with(eid, topic, qos, false, 256)
   }
